@@ -99,7 +99,6 @@ class DAGRunConcurrentManager(DAGRunManagerLike):
     _lock_manager: DAGConcurrentManagerLock = field(init=False)
     _memorization_store: t.Dict[t.Any, t.Any] = field(default_factory=dict)
     _coro_tasks: t.Set[asyncio.Task] = field(default_factory=set)
-    _started_oneof_children: t.Set[NodeId] = field(default_factory=set)
     _additional_data: t.Dict[NodeId, t.Any] = field(default_factory=dict)
     _alias_run_method: str = 'run'
 
@@ -264,10 +263,7 @@ class DAGRunConcurrentManager(DAGRunManagerLike):
             Args:
                 u -  Node
             """
-            return not self.dag.graph.nodes[u].get(NodeField.is_oneof_child) or u in self._started_oneof_children
-
-        if is_oneof:
-            self._started_oneof_children.add(dest)
+            return not self.dag.graph.nodes[u].get(NodeField.is_oneof_child) or (is_oneof and u == dest)
 
         return get_connected_subgraph(
             dag=nx.subgraph_view(self.dag.graph, filter_edge=_filter, filter_node=_filter_node),
